@@ -4,6 +4,7 @@
    Model/Retry.v is compared with real Task executions by harness/check_C07.py. *)
 From LSF Require Import PyStr Json GenTypes Retry_gen PathSpec Paths Retry RetrySpec C07Oracle PathRenderProofs RetryProofs Pins_Retry_gen.
 From Coq Require Import QArith.
+From LSF Require RetryScope RetryScopeProofs.
 Close Scope Q_scope.
 Open Scope string_scope.
 
@@ -76,6 +77,18 @@ Theorem C07_multi_retrier_refuted :
   length ds = 3 /\ length ds' = 5.
 Proof. exact multi_retrier_refuted. Qed.
 
+(* retry counters do not leak between a Parallel / Map state with a Retry and the Task with a Retry in its branch, in either
+   direction (Model/RetryScope.v: the one RetryCount of the event context, saved and restored around the branches): every attempt
+   of the fan-out gives the Task its full back-off sequence, the attempts are separated by the fan-out's own interval, and the
+   Task is invoked exactly (pm + 1) * (tm + 1) times - MaxAttempts bounds the retries whatever the branch does *)
+Theorem C07_counters_do_not_leak : forall pm tm pi ti,
+  RetryScope.run pm tm pi ti (S pm) {| RetryScope.ctx := 0; RetryScope.saved := 0 |} = RetryScope.spec tm pi ti pm.
+Proof. exact RetryScopeProofs.visit. Qed.
+
+Theorem C07_nested_invocations_bounded : forall pm tm pi ti,
+  S (length (RetryScope.run pm tm pi ti (S pm) {| RetryScope.ctx := 0; RetryScope.saved := 0 |})) = (S pm) * (S tm).
+Proof. exact RetryScopeProofs.invocations. Qed.
+
 Example C07_hypotheses_satisfiable :
   only_retrier f20_retriers 0 ["A"; "A"; "A"; "C"] /\
   fst (run_policy (state_of f20_retriers []) None (JObj []) ["A"; "A"; "A"; "C"] 0) = [1 * 2 ^ 0; 1 * 2 ^ 1]%Q.
@@ -88,3 +101,5 @@ Print Assumptions C07_first_matching_catcher.
 Print Assumptions C07_error_output_placed.
 Print Assumptions C07_policy_refines_spec.
 Print Assumptions C07_multi_retrier_refuted.
+Print Assumptions C07_counters_do_not_leak.
+Print Assumptions C07_nested_invocations_bounded.
